@@ -2,14 +2,15 @@
 (* C20 observation validator (U3): every input was decoded by the real code in
    strict mode and in permissive mode (encoding/asn1.AllowPermissiveParsing off /
    on); one NDJSON record per (input, entry point):
-       s_ok s_n s_dig     strict : accepted?, bytes consumed, digest of the decoded value
-       p_ok p_n p_dig     permissive
+       s_ok s_n s_dig s_f   strict : accepted?, bytes consumed, digest of the decoded value,
+                            digests of its named parts (record part name -> digest)
+       p_ok p_n p_dig p_f   permissive
    The property (A layer):  s_ok => p_ok /\ p_n = s_n /\ p_dig = s_dig
    "permissive mode only turns some strict-mode failures into successes".
    The grammar-level counterpart (the relaxations DER.tla specifies are monotone:
    PermExtends) is an invariant of DERGen.tla.
    All records are judged in the single initial state; a disallowed record prints
-   <<"REJECT", i, what>>; <<"COUNTS", source, n, strict-accepted, relaxed>> tells the driver
+   <<"REJECT", i, what, differing parts>>; <<"COUNTS", source, n, strict-accepted, relaxed>> tells the driver
    whether the implication was exercised (antecedent true) and whether the permissive
    mode accepted anything the strict mode refused (relaxations reached).            *)
 EXTENDS Naturals, Sequences, FiniteSets, TLC, Json
@@ -27,8 +28,14 @@ Init == x = 0
 Next == x' = x
 Spec == Init /\ [][Next]_x
 
+\* the named parts of the decoded value whose digests differ (or exist in one mode only)
+Differing(r) == LET ks == DOMAIN r.s_f  kp == DOMAIN r.p_f IN
+  {k \in ks \cup kp : k \notin ks \/ k \notin kp \/ r.s_f[k] # r.p_f[k]}
+
 Srcs == {"der", "struct", "cert"}
-Judge == /\ \A i \in 1..Len(Obs) : What(Obs[i]) = "" \/ PrintT(<<"REJECT", i, What(Obs[i])>>)
+Judge == /\ \A i \in 1..Len(Obs) :
+              What(Obs[i]) = "" \/ PrintT(<<"REJECT", i, What(Obs[i]),
+                                            IF What(Obs[i]) = "value-differs" THEN Differing(Obs[i]) ELSE {}>>)
          /\ \A s \in Srcs :
               PrintT(<<"COUNTS", s, Cardinality({i \in 1..Len(Obs) : Obs[i].src = s}),
                        Cardinality({i \in 1..Len(Obs) : Obs[i].src = s /\ Obs[i].s_ok}),
